@@ -29,7 +29,7 @@ class C14(Check):
         "distinct by digest of (text, unknown names)."
     )
     assumptions = ["shake_128/shake_256 are advertised but variable-length and outside the statement", "advertised set = hashlib.algorithms_guaranteed | {MD5, SHA-256, CRC-64-AVRO}"]
-    required_labels = ["text:empty", "text:non-ascii", "text:canonical-form", "unknown-name", "hashlib-accepts-unadvertised", "crc-leading-zero-byte"]
+    required_labels = ["text:empty", "text:non-ascii", "text:canonical-form", "unknown-name", "hashlib-accepts-unadvertised", "crc-leading-zero-byte", "text:len>=65536"]
     quick = (1500, 1)
     thorough = (20000, 16)
 
@@ -70,6 +70,17 @@ class C14(Check):
         return cases()
 
     def fixed_cases(self, tier):
+        # lengths around every power of two up to 2^18 (hash block sizes, chunked feeding), ASCII and multi-byte
+        for k in range(0, 19 if tier == "thorough" else 18):
+            for dl in (-1, 0, 1):
+                n = 2**k + dl
+                if n <= 0:
+                    continue
+                yield {"text": "a" * n, "kind": "text", "unknown": []}
+                if k in (6, 7, 12, 16, 17):
+                    yield {"text": ("é" * n)[:n], "kind": "text", "unknown": []}
+        for n in (3 * 65536, 65536 + 64):
+            yield {"text": "xyz" * (n // 3) + "x" * (n % 3), "kind": "text", "unknown": []}
         yield {"text": "", "kind": "text", "unknown": NEAR}
         yield {"text": '"int"', "kind": "canonical-form", "unknown": []}
         # texts whose CRC has a zero high byte (hex must still be 16 digits): search deterministically
@@ -90,6 +101,8 @@ class C14(Check):
             labels.add("text:canonical-form")
         if len(raw) != len(text):
             labels.add("text:non-ascii")
+        if len(text) >= 65536:
+            labels.add("text:len>=65536")
         want = canon.rabin_hex_le(raw, self.visited)
         if want.endswith("00"):
             labels.add("crc-leading-zero-byte")
